@@ -5,6 +5,7 @@ import "github.com/elys-network/elys/zzvrf/h_c01"
 // Oracle pools: "a rebalancing bonus is paid out of the rebalance treasury only" is settled where the swap is
 // applied (amm keeper UpdatePoolForSwap), whose inductive step lives in h_c01: the pool account pays exactly the
 // swap output, the treasury pays the bonus, bank == book afterwards.
+//
 //vrf:cover swap-ok bonus-pos bonus-neg
 //vrf:bound see h_c01.H_UpdatePoolForSwap_Oracle_Bonus
 func H_Keeper_OracleBonusFromTreasuryOnly() { h_c01.H_UpdatePoolForSwap_Oracle_Bonus() }
